@@ -2215,5 +2215,6 @@ func c09sCmd(seed uint64, n int, dir string) {
 	for k, v := range feat {
 		st.Histogram["construct:"+k] = v
 	}
+	c09BlankParams(st) // c09blank.go
 	st.write(dir + "/C09_script_stats.json")
 }
